@@ -181,6 +181,11 @@ class Gen:
             idx = rng.randrange(1, 6)
             reps = len(seg_node.reps('fld', idx)) if seg_node is not None else 0
             return idx, None, reps
+        allf = T.seg_fields(self.version, seg_name)
+        if allf and allf[-1][1] is not None and allf[-1][1][2] == 'varies' and rng.random() < 0.2:
+            idx = len(allf) + rng.randrange(1, 4)        # allowed: the segment ends with a varies field
+            reps = len(seg_node.reps('fld', idx)) if seg_node is not None else 0
+            return idx, None, reps
         ex = sorted({f.key for f in seg_node.kids}) if seg_node is not None else []
         ex = [i for i in ex if any(i == j for j, _ in fl)]
         if ex and rng.random() < existing_p:
@@ -526,7 +531,7 @@ class Gen:
         fname = '%s_%d' % (seg_name, idx)
         other_level = 2 if self.level == 1 else 1
         kind = rng.choice(['parent_kw', 'parent_kw', 'parent_attr', 'parent_attr', 'detach', 'elem', 'elem', 'bdt', 'bdt',
-                           'hold', 'hold'])
+                           'bdt', 'hold', 'hold', 'readd', 'value_bdt', 'value_bdt', 'dt_assign', 'dt_assign'])
         if self.mixname == 'c09':      # C09 speaks of assignments, additions, deletions and copies only
             kind = rng.choice(['bdt', 'bdt', 'parent_attr'])
         strict_full = self.strict and card[1] != -1 and reps >= card[1]
@@ -542,11 +547,56 @@ class Gen:
             elif r < 0.40 and fref is not None:
                 op['datatype'] = rng.choice([d for d in ('HD', 'CX', 'ST', 'NM', 'CE', 'XPN') if d != fref[2]])
                 op['bad'] = 'datatype_override'
+                st = T.datatype_struct(self.version, op['datatype'])
+                if kind == 'parent_attr':
+                    # the value must fit the datatype the field is built with
+                    if st:
+                        op['text'] = self.field_value(('sequence', st, op['datatype'], None, None, -1), 0, corpus._ec(0))
+                    else:
+                        op['text'] = gen.valid_literal('ST', self.tok, rng)
             elif strict_full:
                 op['bad'] = 'cardinality'
             elif self.mixname == 'c09' and self.strict:
                 return None
             return op
+        if kind == 'readd':
+            # add() of an element that already is a child of that very parent
+            if node is None or not node.kids or node.key == 'MSH':
+                return None
+            child = rng.choice(node.kids)
+            rep_i = [id(k) for k in node.reps('fld', child.key)].index(id(child))
+            return {'k': 'reattach', 'p': path, 'src': [0, path + [['fld', child.key, rep_i, 0]]], 'bad': 'readd'}
+        if kind == 'value_bdt':
+            # element.value = <BaseDataType object>, of the field's own datatype or of another one
+            fl = [(i, c) for i, c in _usable_fields(self.version, seg_name) if T.is_base(self.version, c[1][2])]
+            if not fl:
+                return None
+            ex = {f.key for f in node.kids} if node is not None else set()
+            cand = [x for x in fl if x[0] in ex]
+            i, c = rng.choice(cand) if cand and rng.random() < 0.8 else rng.choice(fl)
+            dt = c[1][2]
+            other = rng.random() < 0.5
+            use = rng.choice([d for d in ('NM', 'ST', 'SI', 'ID', 'DT') if d != dt and T.is_base(self.version, d)] or [dt]) if other else dt
+            v, ok = gen.leaf(use, self.tok, rng, 0.0)
+            op = {'k': 'value', 'p': path + [['fld', i, 0, 0]], 'bdt': [use, v], 'text': v}
+            if other:
+                op['bad'] = 'wrong_bdt_value'
+            return op
+        if kind == 'dt_assign':
+            # field.datatype = X on a freshly added (empty) field, then a value: STRICT must refuse the override
+            allf = [(j + 1, c) for j, c in enumerate(T.seg_fields(self.version, seg_name)) if c[1] is not None and c[2][1] != 0]
+            if not allf:
+                return None
+            i, c = rng.choice(allf)
+            cur = c[1][2]
+            have = len(node.reps('fld', i)) if node is not None else 0
+            if self.strict and c[2][1] != -1 and have >= c[2][1]:
+                return None
+            ndt = rng.choice([d for d in ('NM', 'ST', 'DT', 'ID', 'SI') if d != cur and T.is_base(self.version, d)] or ['ST'])
+            v, ok = gen.leaf(ndt, self.tok, rng, 0.0)
+            self.pending.append({'k': 'datatype', 'p': path + [['fld', i, have, 0]], 'dt': ndt, 'bad': 'datatype_override'})
+            self.pending.append({'k': 'value', 'p': path + [['fld', i, have, 0]], 'text': v, 'bad': 'datatype_override'})
+            return {'k': 'add', 'p': path, 'c': ['fld', i, 0, 0], 'via': 'factory'}
         if kind == 'detach':
             if node is None or not node.kids or node.key == 'MSH':
                 return None
@@ -673,8 +723,9 @@ class Gen:
                 if not one:
                     return None
                 c = rng.choice(one)
-                return {'k': 'add', 'p': [], 'c': ['seg', c[0], 0, 0], 'via': rng.choice(['factory', 'inst']),
-                        'text': self.segtext(c[0], ec=corpus._ec(0)), 'bad': 'cardinality'}
+                via = rng.choice(['factory', 'inst'])
+                return {'k': 'add', 'p': [], 'c': ['seg', c[0], 0, 0], 'via': via,
+                        'text': self.segtext(c[0], ec=corpus._ec(0) if via == 'inst' else None), 'bad': 'cardinality'}
             if cause == 'seg_level_mismatch':
                 if have and rng.random() < 0.6:
                     return {'k': 'set', 'p': [], 'c': ['seg', name, 0, 0], 'via': 'attr', 'bad': 'level_mismatch_replace',
@@ -690,12 +741,33 @@ class Gen:
             oname = rng.choice([x for x in MSG_POOL if x != self.init['name'] and x in T.messages(self.version)] or ['ACK'])
             text = gen.message_text(rng, other_version if rng.random() < 0.5 else self.version, oname, self.ec, self.tok)
             return {'k': 'value', 'p': [], 'text': text, 'bad': 'other_message_text'}
+        if self.kind == 'msg' and rng.random() < 0.3 and m is not None:
+            # through a segment that exists only by traversal: a refusal must not leave it behind
+            ref = T.messages(self.version).get(self.init['name'])
+            segs, grps = self.msg_children(ref)
+            missing = [c for c in segs if not m.reps('seg', c[0])]
+            if missing:
+                c = rng.choice(missing)
+                targets = [([['seg', c[0], 0, rng.choice([0, 1])]], c[0], None)]
         if not targets:
             return None
         path, seg_name, node = rng.choice(targets)
         idx, fref, reps = self.pick_field(seg_name, node, 0.7)
         step = ['fld', idx, 0, self.sp()]
         fname = '%s_%d' % (seg_name, idx)
+        if node is None:
+            # only assignments make sense through a segment that does not exist yet
+            cause = rng.choice(['version_mismatch', 'invalid_value'] + ([] if self.twin else ['level_mismatch']))
+            if cause == 'invalid_value':
+                return {'k': 'set', 'p': path, 'c': step, 'via': 'attr', 'v': {'text': self.field_value(fref, 0.9)},
+                        'bad': 'invalid_value'}
+        if node is None and cause in ('level_mismatch', 'version_mismatch'):
+            kw = {'level': other_level} if cause == 'level_mismatch' else {'version': other_version}
+            if cause == 'version_mismatch' and not HN.field_ref(other_version, seg_name, idx):
+                return None
+            inst = {'cls': 'Field', 'name': fname, 'text': self.field_value(fref, 0, corpus._ec(0))}
+            inst.update(kw)
+            return {'k': 'set', 'p': path, 'c': step, 'via': 'attr', 'v': {'inst': inst}, 'bad': cause}
         if cause == 'wrong_class':
             return {'k': 'add', 'p': path, 'c': step, 'via': 'inst', 'cls': rng.choice(['seg', 'cmp', 'sub']),
                     'name': rng.choice(['PV1', 'EVN']) if True else None, 'bad': 'wrong_class'} \
@@ -721,8 +793,9 @@ class Gen:
             if not one:
                 return None
             i, c = rng.choice(one)
-            return {'k': 'add', 'p': path, 'c': ['fld', i, 0, 0], 'via': rng.choice(['factory', 'inst']),
-                    'text': self.field_value(c[1], 0, corpus._ec(0)), 'bad': 'cardinality'}
+            via = rng.choice(['factory', 'inst'])
+            return {'k': 'add', 'p': path, 'c': ['fld', i, 0, 0], 'via': via,
+                    'text': self.field_value(c[1], 0, corpus._ec(0) if via == 'inst' else None), 'bad': 'cardinality'}
         if cause in ('level_mismatch', 'version_mismatch'):
             kw = {'level': other_level} if cause == 'level_mismatch' else {'version': other_version}
             if cause == 'version_mismatch' and not HN.field_ref(other_version, seg_name, idx):
